@@ -223,6 +223,7 @@ pub fn run(ctx: &mut Ctx) {
     ctx.run_cases("type-strings", &strings, judge_type_string);
     ctx.exhaustive_parts.push("member type grammar: 100 atoms x all suffix lists of length <= 3 over 5 suffixes".into());
 
+    crate::fuzz::run_for(ctx);
     let total = n as u64;
     ctx.floor("shared-dependency", total, 0.10);
     ctx.floor("repeated-dependency-not-first", total, 0.05);
